@@ -42,7 +42,7 @@ META = {
             "data/handshake/garbage packets; per-packet byte period, gap pattern, pre/post, inter-packet idle 1-12; address "
             "changes between packets",
 }
-TIERS = {"quick": {"runs": 12000, "wall": 70}, "thorough": {"runs": 120000, "wall": 900}}
+TIERS = {"quick": {"runs": 24000, "wall": 70}, "thorough": {"runs": 120000, "wall": 900}}
 
 _TOK = ["IN", "OUT", "SETUP", "PING"]
 
